@@ -9,13 +9,6 @@ CLAIMED = {
 }
 
 NOT_APPLICABLE = {
-    'C14': 'Every clause is an algebraic statement about the values computed by one hand-optimised '
-           'pure function (CanonicalizePath); nothing of it is visible in the shape of the code, and a '
-           'rule matching that shape would be a frozen fragment. The structural consequence (paths are '
-           'canonicalised before they become node identities) is checked under C10/C11/C12 (rule CN).',
-    'C15': 'Round-trip equality between all file-name lists and what a generated state machine with '
-           'in-place de-escaping reads back; undecidable without evaluating the scanner on strings. The '
-           'memory-safety side of that scanner is decided under C13 (value-set abstract interpretation).',
 }
 
 
